@@ -449,6 +449,12 @@ def search_for_paths(logger: ConsolePrinter, processor: EYAMLProcessor,
                 continue
 
             if isinstance(ele, (CommentedSeq, CommentedMap)):
+                if (anchor_matched is AnchorMatches.UNSEARCHABLE_ALIAS
+                        and not include_value_aliases):
+                    # An Alias of a Hash or Array repeats nodes which have
+                    # been searched where they are Anchored
+                    continue
+
                 logger.debug(
                     "Recursing into complex data:", data=ele,
                     prefix="yaml_paths::search_for_paths<list>:  ",
@@ -589,6 +595,12 @@ def search_for_paths(logger: ConsolePrinter, processor: EYAMLProcessor,
                 continue
 
             if isinstance(val, (CommentedSeq, CommentedMap, CommentedSet)):
+                if (val_anchor_matched is AnchorMatches.UNSEARCHABLE_ALIAS
+                        and not include_value_aliases):
+                    # An Alias of a Hash or Array repeats nodes which have
+                    # been searched where they are Anchored
+                    continue
+
                 logger.debug(
                     "Recursing into complex data:", data=val,
                     prefix="yaml_paths::search_for_paths<dict>:  ",
